@@ -105,3 +105,11 @@ Definition table_matches_spec (t : vtable) (fields : list bytes) : bool :=
   && forallb (fun f => mem_bytes f fields) spec_field_names
   && forallb (fun v => forallb (fun f => bytes_eqb (field_value t v f) (field_value spec_table v f)) fields)
              (ver_names spec_table).
+
+(* what EventBuilder.Build must produce for a row: event_id carried in the JSON only for ID format
+   1; prev/auth events as (ID, hash) pairs for event format 1 and as ID strings for format 2; the
+   event ID random (format 1), standard base64 (2) or URL-safe base64 (3) *)
+Definition expected_builder_shape (r : vrow) : bytes :=
+  (if v_id_fmt r =? 1 then bs "event_id:yes" else bs "event_id:no") ++ bs " refs:" ++
+  (if v_event_fmt r =? 1 then bs "pairs" else bs "ids") ++ bs " id:" ++
+  nth_ident (v_id_fmt r) [bs "random"; bs "std"; bs "url"].
